@@ -417,6 +417,8 @@ E2E_OPTS = [
     ["--flow", "--comm_summarize_seq"],
     ["--drop_globals", "-C", "prep_queue"],
     ["-C"],
+    ["-c", "@LOG"],
+    ["-t", "-c", "@LOG"],          # utilization counters without the stats stage that strips their temporary dur
 ]
 
 
@@ -558,6 +560,19 @@ def run_e2e(sc, opts, ctx_work, paths=None):
                 rec["hook"] = "ok"
             except Exception as e:  # noqa: BLE001
                 rec["hook"] = f"{type(e).__name__}: {e}"
+    opts = list(opts)
+    if "@LOG" in opts:
+        # a single-table compiler log listing every Cmpt Exec kernel of the scenario with non-zero ideal cycles
+        names = sorted({e["name"].rsplit(" Cmpt Exec", 1)[0] for evs in sc["files"] for e in evs
+                        if isinstance(e.get("name"), str) and e["name"].endswith(" Cmpt Exec")})
+        lines = ["[DeepRT] ===== Perf BEGIN =====", "====== Perf Summary ======", "~~~~ Ideal/Total Cycles ~~~~", "-" * 91,
+                 "Name" + " " * 76 + "Ideal Cy.", "-" * 91]
+        lines += [f"{n}-opCatConv_fp16".ljust(80) + "4096".ljust(15) for n in names]
+        lines += ["-" * 91, f"Total\t\t\t\t\t\t\t\t\t\t{4096 * len(names)}", "-" * 91, "====== Perf Summary End ======",
+                  "[DeepRT] ===== Perf END ====="]
+        logp = os.path.join(indir, "comp.log")
+        open(logp, "w").write("\n".join(lines) + "\n")
+        opts[opts.index("@LOG")] = logp
     try:
         with quiet():
             a = Hooked(["-i", ",".join(used), "-o", outp, "-D", "0"] + list(opts))
